@@ -55,3 +55,80 @@ func c06ExploreArrays(p *fw.Program) {
 		})
 	}
 }
+
+// c06DebugSSA: C06_SSA=<fn,fn> prints the SSA of the named functions and their closures (debug aid).
+func c06DebugSSA(p *fw.Program) {
+	names := os.Getenv("C06_SSA")
+	if names == "" {
+		return
+	}
+	for _, n := range strings.Split(names, ",") {
+		fn := p.Fn(n)
+		if fn == nil {
+			println("no such fn", n)
+			continue
+		}
+		for _, f := range fw.WithClosures(fn) {
+			f.WriteTo(os.Stdout)
+		}
+	}
+}
+
+// c06ExploreConstIdx: exploratory listing (C06_EXPLORE=1) of constant indexes into slices that no
+// dominating length fact proves.
+func c06ExploreConstIdx(p *fw.Program) {
+	if os.Getenv("C06_EXPLORE") == "" {
+		return
+	}
+	n, bad := 0, 0
+	for _, fn := range p.FqFunctions() {
+		if !strings.HasPrefix(pkgRel(fn), "format") || !linkedPackages(p)[fw.FnPkgPath(fn)] {
+			continue
+		}
+		var env *fw.PolyEnv
+		fw.EachInstr(fn, func(ins ssa.Instruction) {
+			var xs, idx ssa.Value
+			switch y := ins.(type) {
+			case *ssa.Index:
+				xs, idx = y.X, y.Index
+			case *ssa.IndexAddr:
+				xs, idx = y.X, y.Index
+			default:
+				return
+			}
+			k, isC := idx.(*ssa.Const)
+			if !isC || k.Value == nil {
+				return
+			}
+			if _, isSl := xs.Type().Underlying().(*types.Slice); !isSl {
+				if bt, isB := xs.Type().Underlying().(*types.Basic); !isB || bt.Kind() != types.String {
+					return
+				}
+			}
+			if _, ok := constLenOf(xs); ok {
+				return
+			}
+			if env == nil {
+				env = fw.NewPolyEnv(fn)
+			}
+			n++
+			path, ok := fw.AccessPath(xs)
+			if !ok {
+				path = env.Of(xs).String()
+			}
+			want := fw.Cmp{P: fw.StripVersions(fw.PAtom("len(" + path + ")")).Sub(fw.PConst(k.Int64())), Rel: fw.GT}
+			proved := false
+			for _, f := range c06Facts(env, ins.Block()) {
+				f.P = fw.StripVersions(f.P)
+				if f.Implies(want) || (k.Int64() == 0 && f.Implies(fw.Cmp{P: want.P, Rel: fw.NE})) {
+					proved = true
+				}
+			}
+			if !proved {
+				bad++
+				fmt.Printf("EXPLORE const-index unproved: %s %s[%d] at %s\n", fw.ShortFn(fn), path, k.Int64(), p.Rel(ins.Pos()))
+			}
+		})
+	}
+	fmt.Printf("EXPLORE const-index: %d sites, %d unproved\n", n, bad)
+}
